@@ -79,10 +79,10 @@ const P_W_END: usize = 19;
 const P_W_NESTED: usize = 20;
 const P_RERR_BEFORE: usize = 21;
 const P_RERR_AFTER: usize = 22;
-const P_FRAMING_KEY: usize = 23; // 9
-const P_ASSERT: usize = 32; // 11
-const P_JSON: usize = 43; // reader x4, escaped keys
-const P_TYPE: usize = 48;
+const P_FRAMING_KEY: usize = 23; // 3 framings x 5 key forms
+const P_ASSERT: usize = 38; // 11
+const P_JSON: usize = 49; // reader x5, escaped keys
+const P_TYPE: usize = 55;
 
 const PERMS3: [[u8; 3]; 6] = [[0, 1, 2], [0, 2, 1], [1, 0, 2], [1, 2, 0], [2, 0, 1], [2, 1, 0]];
 
@@ -105,7 +105,7 @@ impl ProbeSpace {
         names.push("read_error_before_all_fields".into());
         names.push("read_error_after_all_fields".into());
         for f in ["self_delim", "len_prefixed", "positional"] {
-            for k in ["visit_str", "visit_borrowed_str", "visit_string"] {
+            for k in ["visit_str", "visit_borrowed_str", "visit_string", "visit_bytes", "visit_borrowed_bytes"] {
                 names.push(format!("medium_{}_{}", f, k));
             }
         }
@@ -116,6 +116,7 @@ impl ProbeSpace {
         names.push("bytes_from_slice".into());
         names.push("bytes_from_str".into());
         names.push("bytes_from_bufreader".into());
+        names.push("bytes_via_json_value".into());
         names.push("bytes_escaped_keys".into());
         assert_eq!(names.len(), P_TYPE);
         for e in reg {
@@ -371,13 +372,13 @@ impl Agg {
             if o.read_ok.is_some() {
                 self.probes[P_JSON + j.reader as usize] += 1;
                 if j.escaped_keys {
-                    self.probes[P_JSON + 4] += 1;
+                    self.probes[P_JSON + 5] += 1;
                 }
             }
         }
         self.runs_with_fault[nf.min(3)] += 1;
         if let AnyPlan::Event(p) = plan {
-            self.probes[P_FRAMING_KEY + (p.medium.framing as usize) * 3 + p.medium.key_form as usize] += 1;
+            self.probes[P_FRAMING_KEY + (p.medium.framing as usize) * 5 + p.medium.key_form as usize] += 1;
         }
 
         if e.is_dec && keyed && o.rfired.is_empty() && o.read_ok.is_some() && o.jstats.r_ioerr + o.jstats.trunc + o.jstats.flip == 0 {
@@ -817,6 +818,28 @@ pub fn cmd_batch(args: &[String]) -> i32 {
                 });
                 if std::fs::write(&path, serde_json::to_string_pretty(&doc).unwrap()).is_ok() && replays(&[]) {
                     confirmed = Some((rec.plan.ty().to_string(), format!("(history-dependent) {}", rec.failure.observed)));
+                } else {
+                    // Not even the sequential history fails: the violation needs several threads inside
+                    // cgmath's code at once. cgmath has no synchronisation seam the simulator could own,
+                    // so this schedule is NOT under the simulator's control; the replay re-runs the
+                    // whole batch on the same number of threads, several times, and is statistical.
+                    let doc = json!({
+                        "property": PROPERTY,
+                        "build_configuration": BUILD_CONFIG,
+                        "lane": "concurrent",
+                        "seed": seed,
+                        "total_runs": total,
+                        "threads": threads,
+                        "attempts": 6,
+                        "failed_in_batch_at_run": rec.run,
+                        "assert_id": id,
+                        "observed": rec.failure.observed,
+                        "note": "fails only when several worker threads (de)serialize at the same time: shared mutable state in the code under test. Replay is statistical (real threads, uncontrolled interleaving): the batch is re-run up to `attempts` times.",
+                        "how_to_replay": format!("/verif/check C20 --replay {}", path),
+                    });
+                    if std::fs::write(&path, serde_json::to_string_pretty(&doc).unwrap()).is_ok() && replays(&[]) {
+                        confirmed = Some((rec.plan.ty().to_string(), format!("(only with concurrent callers) {}", rec.failure.observed)));
+                    }
                 }
             }
             match confirmed {
@@ -993,6 +1016,24 @@ pub fn cmd_replay(args: &[String]) -> i32 {
             }
         }
         println!("NOT-REPRODUCED no run in 0..={} fails {} when executed sequentially on this tree", upto, want_id);
+        return if exact { 2 } else { 0 };
+    }
+    if doc["lane"].as_str() == Some("concurrent") {
+        let seed = doc["seed"].as_u64().unwrap_or(DEFAULT_SEED);
+        let total = doc["total_runs"].as_u64().unwrap_or(0);
+        let threads = doc["threads"].as_u64().unwrap_or(16) as usize;
+        let attempts = doc["attempts"].as_u64().unwrap_or(6);
+        let b = Batch::new(seed);
+        for a in 0..attempts {
+            let agg = b.run_range(0, total, threads.max(2), false);
+            if let Some(rec) = agg.failures.get(want_id.as_str()) {
+                println!("concurrent replay: attempt {} of {}: run {} fails {}: {}", a + 1, attempts, rec.run, want_id, rec.failure.observed);
+                println!("REPRODUCED assert={} (statistical, {} threads)", want_id, threads);
+                println!("VIOLATION property={} replay={}", PROPERTY, path);
+                return 1;
+            }
+        }
+        println!("NOT-REPRODUCED {} attempts of the batch on {} threads did not fail {}", attempts, threads, want_id);
         return if exact { 2 } else { 0 };
     }
     let plan: AnyPlan = match serde_json::from_value(doc["plan"].clone()) {
